@@ -26,6 +26,14 @@ var registry = map[string]Fn{}
 
 func register(name string, f Fn) { registry[name] = f }
 
+// normalizers rewrite the expected strings S and M of a function before comparison. They exist so
+// that a model can leave a sub-decoder that belongs to ANOTHER property abstract: the model prints a
+// placeholder token (e.g. num:<hex>, elem:<oid>:<hex>) and the normalizer replaces it by the
+// canonical result of the real sub-decoder on those bytes (which that other property checks).
+var normalizers = map[string]func(string) string{}
+
+func registerNorm(name string, f func(string) string) { normalizers[name] = f }
+
 // trivialTags lists generator branches whose cases are not counted as non-trivial.
 var trivialTags = map[string]bool{"short": true, "empty": true, "trivial": true}
 
@@ -137,6 +145,12 @@ func main() {
 		}
 		if prog != nil {
 			prog.WriteAt([]byte(fmt.Sprintf("%-12d", idx)), 0)
+		}
+		if nf, ok := normalizers[fn]; ok {
+			if S != "-" {
+				S = nf(S)
+			}
+			M = nf(M)
 		}
 		runtime.ReadMemStats(&ms)
 		a0 := ms.TotalAlloc
